@@ -132,6 +132,7 @@ Fixpoint read_data_type (fuel : nat) (version : Z) {struct fuel} : R DataType :=
       code <- read_short ;;
       rguard (is_ok (CheckValidDataTypeCode code version)) ;;;
       if existsb (Z.eqb code) primitive_codes then ret (DT_Primitive code)
+      else if (code =? DataTypeCodeText) && (version <=? ProtocolVersion2) then ret (DT_Primitive DataTypeCodeVarchar)   (* v2 alias *)
       else if code =? DataTypeCodeCustom then c <- read_string ;; ret (DT_Custom c)
       else if code =? DataTypeCodeList then e <- read_data_type k version ;; ret (DT_List (Some e))
       else if code =? DataTypeCodeMap then
@@ -145,5 +146,5 @@ Fixpoint read_data_type (fuel : nat) (version : Z) {struct fuel} : R DataType :=
         count <- read_short ;;
         fs <- read_count count (rmap Some (read_data_type k version)) ;;
         ret (DT_Tuple fs)
-      else rfail     (* e.g. 0x000A (text): valid code without a decoder case *)
+      else rfail     (* e.g. 0x000A (text) above v2: valid code without a decoder case *)
   end.
